@@ -619,7 +619,7 @@ theorem initLedger_synced (p : Params) (g : Block) (s : State) (hg : g.header.he
       obtain ⟨e, -⟩ := submitBlock_eq p _ s2 g _ hs2
       apply syncedCore_setVersion
       rw [e]
-      exact submitted_syncedCore p _ g _ (by simp [hg]) (Or.inl hg) (by simp [storedNum])
+      exact submitted_syncedCore p _ g _ (by simp [hg, emptyMem]) (Or.inl hg) (by simp [storedNum, emptyMem])
 
 /-- ledgers reachable from a first start by submissions, header deliveries, restarts and crashes inside
 `submitBlock` followed by a restart -/
